@@ -126,9 +126,14 @@ TObs ==
   /\ Expect("registered-ids", SeqSet(Ev.ids), Registered)
   /\ Same /\ UNCHANGED <<now, cae, pend>> /\ Quiet
 
+(* summary line of a registration storm (counts only) *)
+TStorm ==
+  /\ Consume /\ Ev.a = "Storm"
+  /\ Same /\ UNCHANGED <<now, cae, pend>> /\ Quiet
+
 TraceInit == Init /\ l = 1 /\ cae = {} /\ pend = [g \in Callers |-> {}]
 TraceNext == TReset \/ TReg \/ TStopCall \/ TRemovedApi \/ TStopRet \/ TSnap \/ TRunEnter \/ TRunChecked
-             \/ TJobRemove \/ TCbStart \/ TCbEnd \/ TRemovedJob \/ TJobDone \/ TObs
+             \/ TJobRemove \/ TCbStart \/ TCbEnd \/ TRemovedJob \/ TJobDone \/ TObs \/ TStorm
 TraceSpec == TraceInit /\ [][TraceNext]_tvars
 
 ASSUME TLCSet(1, 0)
